@@ -12,7 +12,10 @@ theorem sm_encrypt_command_data (sk d : Bytes) (t : EncryptionType) :
   simp only [mac_pad2, tools_ecb, tools_cbc, bind, Except.bind, pure, Except.pure]
   by_cases h : sk.length = 16
   · simp only [h, ne_eq, not_true_eq_false, if_false]
-    cases t <;> simp [throw, throwThe, MonadExceptOf.throw] <;> repeat (first | rfl | split) <;> simp_all
+    cases t <;> simp [throw, throwThe, MonadExceptOf.throw] <;> (try (repeat (first | rfl | split) <;> simp_all))
+    -- fall-back for rewrites that compute "needs padding" first and pad afterwards
+    all_goals (cases hp : pad2 d (some 8) <;> by_cases hm : d.length % 8 = 0 <;>
+      simp_all [zeros, List.replicate] <;> omega)
   · simp [h, throw, throwThe, MonadExceptOf.throw]
 
 /-- **C07 about the translated source**: each scheme enciphers its documented frame -/
